@@ -3,6 +3,7 @@ the real webhook server's route parses out of the announced URL; judged by TLC a
 dispatch rule over a grid of reviews, and against the declared criteria (the serving side's reading: Admission.tla)."""
 from __future__ import annotations
 
+import asyncio
 import itertools
 import random
 import urllib.parse
@@ -204,6 +205,89 @@ def managed_case(sc: dict[str, Any]) -> dict[str, Any]:
         s = sim.settings()
         s.admission.managed = MANAGED
         s.admission.server = server
+        # ---- the two conditions of the operator replaced by recording ones (for Trace_Managed.tla); nothing else is touched
+        from kopf._cogs.aiokits import aiovalues
+        from kopf._cogs.structs import references
+        from kopf._core.engines import admission as adm
+        from kopf._core.reactor import observation as obsv
+        mev: list[dict[str, Any]] = []
+        live: dict[str, Any] = {'rec': True}
+        NAMES = {'admission insights chain': 'chain', 'admission webhook server': 'server', 'admission validating configuration manager': 'V',
+                 'admission mutating configuration manager': 'M', 'multidimensional multitasker': 'orch'}
+        obs_names: dict[str, str] = {}
+        res_ids: dict[tuple, int] = {}
+
+        def me() -> str:
+            n = asyncio.current_task().get_name()
+            return NAMES[n] if n in NAMES else obs_names.setdefault(n, f'o{len(obs_names) + 1}')
+
+        def resid(resources: Any = None) -> int:
+            ins = live.get('insights')
+            rs = resources if resources is not None else (ins.webhook_resources if ins is not None else ())
+            key = tuple(sorted((r.group, r.version, r.plural) for r in rs))
+            return res_ids.setdefault(key, len(res_ids) + 1)
+
+        def ccid(cfg_: Any = None) -> int:
+            if cfg_ is None:
+                c = live.get('container')
+                vals = list(c._values) if c is not None else []
+                cfg_ = vals[0] if vals else None
+            return 0 if cfg_ is None else 1 + yielded.index(cfg_['url'])
+
+        def emit(ev: str, k: str, **kw: Any) -> None:
+            if live['rec']:
+                mev.append({'ev': ev, 'task': me(), 'k': k, 'cc': kw.pop('cc', 0), 'res': kw.pop('res', 0), **kw})
+
+        class RLock(asyncio.Lock):
+            def __init__(self, k: str) -> None:
+                super().__init__(); self.k = k; self.in_wait: set[str] = set()
+
+            async def acquire(self) -> bool:
+                n = asyncio.current_task().get_name()
+                if n in self.in_wait:                # Condition.wait(): notified, now re-acquiring
+                    self.in_wait.discard(n); emit('cond.wake', self.k)
+                if not self._locked and (self._waiters is None or all(w.cancelled() for w in self._waiters)):
+                    emit('lock.now', self.k)
+                    return await super().acquire()
+                emit('lock.queue', self.k)
+                r = await super().acquire()
+                emit('lock.got', self.k)
+                return r
+
+            def release(self) -> None:
+                n = asyncio.current_task().get_name()
+                super().release()
+                emit('cond.wait' if n in self.in_wait else 'lock.rel', self.k)
+
+        class RCond(asyncio.Condition):
+            def __init__(self, k: str) -> None:
+                super().__init__(lock=RLock(k)); self.k = k
+
+            async def wait(self) -> bool:
+                self._lock.in_wait.add(asyncio.current_task().get_name())      # type: ignore[attr-defined]
+                return await super().wait()
+
+            def notify_all(self) -> None:
+                emit('notify', self.k, cc=ccid() if self.k == 'chg' else 0)
+                super().notify_all()
+        saved = (aiovalues.Container.__init__, references.Insights.__init__, adm.build_webhooks, obsv.revise_resources)
+
+        def c_init(self_: Any, *a: Any, **k: Any) -> None:
+            saved[0](self_, *a, **k); self_.changed = RCond('chg'); live['container'] = self_
+
+        def i_init(self_: Any, *a: Any, **k: Any) -> None:
+            saved[1](self_, *a, **k); object.__setattr__(self_, 'revised', RCond('rev')); live['insights'] = self_
+
+        def build(handlers_: Any, *, resources: Any, client_config: Any, persistent_only: bool = False, **k: Any) -> Any:
+            if not persistent_only:
+                emit('build', 'chg', cc=ccid(client_config), res=resid(resources))
+            return saved[2](handlers_, resources=resources, client_config=client_config, persistent_only=persistent_only, **k)
+
+        def revise(**k: Any) -> Any:
+            r = saved[3](**k)
+            emit('revise', 'rev', res=resid())
+            return r
+        aiovalues.Container.__init__ = c_init; references.Insights.__init__ = i_init; adm.build_webhooks = build; obsv.revise_resources = revise
         op = sim.operator('op1', reg, s)
         checks: list[dict[str, Any]] = []
 
@@ -229,6 +313,7 @@ def managed_case(sc: dict[str, Any]) -> dict[str, Any]:
         stall = False
         try:
             sim.run(sc['end']); check()
+            live['rec'] = False          # (the end of the operator -- cancellations, the cleanup of the configurations -- is not in the step model)
             out = op.finish()
             check(ponly=True)
         except Stall:
@@ -263,8 +348,13 @@ def managed_case(sc: dict[str, Any]) -> dict[str, Any]:
                         rec['entry'] = {'name': e['name'], 'rules': e['rules'], 'sideEffects': e['sideEffects'], 'failurePolicy': e['failurePolicy'],
                                         'selector': {'none': sel is None, 'exprs': (sel or {}).get('matchExpressions', [])}}
                     recs.append(rec)
-        return {'id': sc['id'], 'records': recs, 'problems': problems, 'stall': stall, 'outcome': out, 'scenario': sc, 'checks': len(checks)}
+        return {'id': sc['id'], 'records': recs, 'problems': problems, 'stall': stall, 'outcome': out, 'scenario': sc, 'checks': len(checks),
+                'mtrace': {'id': sc['id'], 'events': mev, 'observers': len(obs_names)}}
     finally:
+        try:
+            aiovalues.Container.__init__, references.Insights.__init__, adm.build_webhooks, obsv.revise_resources = saved
+        except NameError:
+            pass
         sim.close()
 
 
@@ -293,8 +383,9 @@ def managed_stage(ctx: Any, rep: Any, label: str) -> None:
     # Lock / Condition as they behave): no update is lost, no deadlock, every interleaving; two witnesses must fail
     from vf import tlc
     from vf.evidence import MachineryFailure
-    r = tlc.run('Managed', 'MC_Managed.cfg', workers=8, timeout=1800)
-    rep.add_tlc('MC_Managed', r)
+    mc = 'MC_Managed_q.cfg' if ctx.quick else 'MC_Managed.cfg'       # one observer (0.7 M states) / two observers (2.4 M states)
+    r = tlc.run('Managed', mc, workers=16, timeout=3000)
+    rep.add_tlc(mc[:-4], r)
     if not r.ok:
         rep.violation(f'{label}: Managed.tla: {r.violated}', files={'tlc.out': r.out[-50000:]})
     for wcfg in ('MC_Managed_unlocked.cfg', 'MC_Managed_latechain.cfg'):
@@ -311,6 +402,8 @@ def managed_stage(ctx: Any, rep: Any, label: str) -> None:
     for run in runs:
         if run['stall']:
             rep.violation(f'{label}: {run["id"]}: the event loop stalled', payload=run['scenario'])
+        elif run['outcome'] != 'returned' or not run['records'] or not run['mtrace']['events']:
+            raise MachineryFailure(f'{run["id"]}: the operator of the managed run ended with {run["outcome"]}, {len(run["records"])} records, {len(run["mtrace"]["events"])} events')
         for p in run['problems']:
             rep.violation(f'{label}: {run["id"]}: managed webhooks: {p}', payload=run['scenario'])
         if run['checks'] > 1:
@@ -319,4 +412,46 @@ def managed_stage(ctx: Any, rep: Any, label: str) -> None:
         if lab != 'W1':
             rep.violation(f'{label}: managed webhooks: t={recs[i]["at"]}: {lab}: handler={recs[i]["h"]["id"]} kinds={[r_["plural"] for r_ in recs[i]["res"]]} '
                           f'persistent_only={recs[i]["persistent_only"]} entry={recs[i]["entry"]}', payload=recs[i])
-    rep.extra['managed_webhooks'] = {'runs': len(runs), 'records': len(recs)}
+    # step conformance of the wake-up chain: every lock / condition event, revision and build of every run against Managed.tla
+    mts = [run['mtrace'] for run in runs if not run['stall']]
+    mv = judge_managed(mts, rep)
+    rep.evaluations += len(mts); rep.traces += len(mts)
+    for t in mts:
+        if mv[t['id']] != 'accepted':
+            rep.violation(f'{label}: {t["id"]}: the managed configurations do not follow Managed.tla: {mv[t["id"]]}', payload=t)
+    rep.extra['managed_webhooks'] = {'runs': len(runs), 'records': len(recs), 'step_traces': len(mts), 'step_events': sum(len(t['events']) for t in mts)}
+
+
+_RE_MV = __import__('re').compile(r'<<\s*"VERDICT",\s*(\d+),\s*"([^"]*)",\s*(-?\d+),\s*(\d+),\s*"([^"]*)"\s*>>')
+
+
+def judge_managed(traces: list[dict[str, Any]], rep: Any = None) -> dict[str, str]:
+    import json, os, shutil, tempfile
+    from vf import tlc
+    from vf.evidence import MachineryFailure
+    nobs = max([t['observers'] for t in traces] + [1])
+    nres = max([e['res'] for t in traces for e in t['events']] + [1])
+    scratch = tempfile.mkdtemp(prefix='vf-managed-')
+    try:
+        path = os.path.join(scratch, 'traces.json')
+        with open(path, 'w') as f:
+            json.dump([{'id': t['id'], 'events': t['events']} for t in traces], f)
+        cfg = ('SPECIFICATION TSpec\nCONSTANTS\n  MaxCC = 1000\n  MaxRev = 100000\n  ResVals = {%s}\n  Obs = {%s}\n  Variant = "trace"\n'
+               'CONSTRAINT Book\nPOSTCONDITION Verdicts\nCHECK_DEADLOCK FALSE\n'
+               % (', '.join(map(str, range(0, nres + 1))), ', '.join(f'"o{i}"' for i in range(1, nobs + 1))))
+        r = tlc.run('Trace_Managed', cfg_text=cfg, workers=1, deque=True, env={'TRACE_FILE': path}, timeout=1500)
+    finally:
+        shutil.rmtree(scratch, ignore_errors=True)
+    if not r.ok:
+        raise MachineryFailure(f'Trace_Managed failed: {r.violated} {r.errors}\n{r.out[-3000:]}')
+    if rep is not None:
+        rep.add_tlc('Trace_Managed', r)
+    got = {int(m.group(1)): m for m in _RE_MV.finditer(r.out)}
+    if len(got) != len(traces):
+        raise MachineryFailure(f'Trace_Managed printed {len(got)} verdicts for {len(traces)} traces\n{r.out[-2000:]}')
+    res: dict[str, str] = {}
+    for i, t in enumerate(traces, start=1):
+        done, n, inv = int(got[i].group(3)), int(got[i].group(4)), got[i].group(5)
+        res[t['id']] = (f'invariant {inv} violated' if inv else 'accepted') if done >= n else \
+            f'rejected at event {done + 1} of {n}: {t["events"][done]} (after {t["events"][max(0, done - 4):done]})'
+    return res
